@@ -162,7 +162,7 @@ func genC14(r *sim.Rand, tier string) *sim.Program {
 		case 4:
 			p.Add("subst", slot, r.Intn(1<<16), 1+r.Intn(255), r.Intn(12))
 		case 5:
-			p.Add("allbytes", slot, r.PickInt(1, 0x80, 0xff, 1+r.Intn(255)), r.Intn(12))
+			p.Add("allbytes", slot, r.PickInt(1, 1, 2, 3, 4, 7, 0x80, 0xff, 1+r.Intn(255), 1+r.Intn(255)), r.Intn(12))
 		case 6:
 			p.Add("trunc", slot, r.Intn(1<<16), r.Intn(12), r.Intn(4))
 		case 7:
@@ -629,7 +629,7 @@ func execC14(t *testing.T, p *sim.Program, c *sim.Ctx) {
 			stride, first := 1, 0
 			if n > 240 {
 				stride = (n + 239) / 240
-				first = c14Mod(op.Int(1), stride)
+				first = c14Mod(op.Int(1)+op.Int(2), stride)
 			}
 			c.Abs("allbytes", rec.key.kind, rec.spec.ck, rec.spec.ek, rec.spec.cipher, rec.spec.kdf, rec.auth)
 			cnt := 0
